@@ -214,6 +214,8 @@ class PropertyRun:
         ok, wclass, what = None, 'replay-error', f'{type(e).__name__}: {e}'
         sys.stderr.write(traceback.format_exc())
       replayed += 1
+      if ok == 'drop':
+        continue  # infeasible under bit-precise semantics, and no repro
       if ok is None or ok is False:
         inconclusive.append(
             f'counterexample for {c.obligation} did not reproduce on the real '
